@@ -170,6 +170,76 @@ PopcountsOK(r) ==
     /\ \A w \in 0..(Len(r) - 1) : r[w + 1] = WOnes(w)
 Popcounts(r) == PopcountsOK(r) /\ UNCHANGED vec
 
+(* twins of len / count_ones / count_zeros / is_empty (max_rank1, num_ones, size_dim, total_bits ...): *)
+(* what \in {"len","ones","zeros","empty"}; booleans are logged as 0/1                                   *)
+CountTwinOK(what, r) ==
+    r = CASE what = "len"   -> N
+          [] what = "ones"  -> Ones
+          [] what = "zeros" -> Zeros
+          [] what = "empty" -> (IF N = 0 THEN 1 ELSE 0)
+CountTwin(what, r) == CountTwinOK(what, r) /\ UNCHANGED vec
+(* ones inside bit ranges [s, s+l) of ONE 64-bit word (ranges are clipped at bit 64) *)
+WordRangesOK(w, ss, ls, r) ==
+    /\ Len(r) = Len(ss) /\ Len(ls) = Len(ss)
+    /\ \A j \in 1..Len(ss) :
+          r[j] = IF ss[j] >= 64 THEN 0 ELSE WRank1(w, Min2(ss[j] + ls[j], 64)) - WRank1(w, ss[j])
+WordRanges(w, ss, ls, r) == WordRangesOK(w, ss, ls, r) /\ UNCHANGED vec
+(* trailing / leading zero counts of a word = position of its first / last one (64 for an empty word) *)
+WordEdgesOK(w, tz, lz) ==
+    /\ tz = IF WOnes(w) = 0 THEN 64 ELSE WSel1(w, 0)
+    /\ lz = IF WOnes(w) = 0 THEN 64 ELSE 63 - WSel1(w, WOnes(w) - 1)
+WordEdges(w, tz, lz) == WordEdgesOK(w, tz, lz) /\ UNCHANGED vec
+
+(* ------------------------------------------------------------------------- *)
+(* the bit-vector history machine: the bit sequence is whatever the sequence *)
+(* of BitVector mutators made it.  Abstract state = the bit string (vec);    *)
+(* every mutator is an action; len and count_ones observed after the step    *)
+(* are parameters of every action (Observed), the full get / rank probe of   *)
+(* the BitVector and every rank/select structure built from it afterwards    *)
+(* are judged by the actions above against vec.                              *)
+(* Refusal rule: a mutator that returns Err (ok = FALSE) must leave the      *)
+(* sequence unchanged; ok = TRUE is accepted only for arguments in range.    *)
+Bits == vec.bits
+Rep(x, k) == [j \in 1..k |-> x]
+Observed(len, ones) == len = vec'.n /\ ones = Len(vec'.p1)
+BitOp(f, a, b) == CASE f = "and" -> (IF a = 1 /\ b = 1 THEN 1 ELSE 0)
+                    [] f = "or"  -> (IF a = 1 \/ b = 1 THEN 1 ELSE 0)
+                    [] f = "xor" -> (IF a # b THEN 1 ELSE 0)
+
+(* new / with_capacity (b = <<>>), with_size (b = n copies of x), from_raw_bits (b = the first n bits) *)
+BvNew(b) == vec' = Mk(b)
+(* push of every bit of b, in order *)
+BvPush(b) == vec' = Mk(Bits \o b)
+(* k calls of pop(): r[j] = the j-th popped bit (the last bit first), Refused once the vector is empty *)
+BvPop(k, r) ==
+    /\ Len(r) = k
+    /\ \A j \in 1..k : r[j] = IF j <= N THEN Bits[N - j + 1] ELSE Refused
+    /\ vec' = Mk(SubSeq(Bits, 1, N - Min2(k, N)))
+(* set / set_unchecked / get_mut().set *)
+BvSet(i, x, ok) ==
+    IF ok THEN i < N /\ vec' = Mk([Bits EXCEPT ![i + 1] = x]) ELSE UNCHANGED vec
+BvInsert(i, x, ok) ==
+    IF ok THEN i <= N /\ vec' = Mk(SubSeq(Bits, 1, i) \o <<x>> \o SubSeq(Bits, i + 1, N)) ELSE UNCHANGED vec
+(* ensure_set1 / fast_ensure_set1: bit i becomes 1; a vector that is too short grows with ZEROS up to i *)
+BvEnsureSet1(i, ok) ==
+    IF ok THEN vec' = Mk(IF i < N THEN [Bits EXCEPT ![i + 1] = 1] ELSE Bits \o Rep(0, i - N) \o <<1>>)
+    ELSE UNCHANGED vec
+BvResize(n, x, ok) ==
+    IF ok THEN vec' = Mk(IF n <= N THEN SubSeq(Bits, 1, n) ELSE Bits \o Rep(x, n - N)) ELSE UNCHANGED vec
+BvClear == vec' = Mk(<<>>)
+(* set_range_simd(s, e, x): bits s .. e-1 *)
+BvSetRange(s, e, x, ok) ==
+    IF ok THEN /\ s <= e /\ e <= N
+               /\ vec' = Mk([j \in 1..N |-> IF s < j /\ j <= e THEN x ELSE Bits[j]])
+    ELSE UNCHANGED vec
+(* bulk_bitwise_op_simd(other, f, s, e): bits s .. e-1 combined with the same bits of other *)
+BvBitwise(f, other, s, e, ok) ==
+    IF ok THEN /\ s <= e /\ e <= N /\ e <= Len(other)
+               /\ vec' = Mk([j \in 1..N |-> IF s < j /\ j <= e THEN BitOp(f, Bits[j], other[j]) ELSE Bits[j]])
+    ELSE UNCHANGED vec
+(* reserve, clone (the clone is used from here on), == with its own clone *)
+BvNoop == UNCHANGED vec
+
 (* a constructor may refuse a vector (Err): nothing was built, nothing to check *)
 BuildRefused == UNCHANGED vec
 Built == UNCHANGED vec
